@@ -15,7 +15,9 @@ RULE = ("cases = scripted stop histories (open HTTP/WS connections, send calls w
         "message_buffer_capacity 1 / 2 / default with 3..8 calls executing on one WS connection all released in one step "
         "before or after the stop, client reading normally or paused behind a 4 KiB receive buffer with 2 MiB replies "
         "(the server's writer then really blocks); a few histories that wait for "
-        "`stopped` while a handler is parked (must time out).  distinct non-trivial = distinct implementation fact "
+        "`stopped` while a handler is parked (must time out); keepalive-short: ServerConfig keep_alive_timeout set to "
+        "100/200/300 ms (op T<ms>) and HTTP (and mixed WS) calls whose handlers run for 16..30 x 25 ms after the stop signal, "
+        "which must still be completed and answered before `stopped`.  distinct non-trivial = distinct implementation fact "
         "lines with at least one started call or one connection")
 TRUSTED = [
     "modelled, not verified: tokio (watch/mpsc/oneshot semantics, task scheduling), hyper's HTTP/1 connection "
@@ -31,7 +33,8 @@ ASSUMPTIONS = [
     "the histories, not exhibited by the model",
     "handlers are assumed to return (CFinish is an internal step): a handler that never returns keeps `stopped` "
     "pending for ever, by design",
-    "not modelled: inactivity close (pings are enabled in the family ws-ping-enabled, where the model treats them as no-ops: pongs arriving while calls execute or while the server stops must change nothing), batches, "
+    "not modelled: inactivity close (pings are enabled in the family ws-ping-enabled, where the model treats them as no-ops: pongs arriving while calls execute or while the server stops must change nothing), hyper's keep-alive timeout (family keepalive-short sets it to 100..300 ms; the model ignores "
+    "the `T` op: the timeout must not shorten a graceful stop), batches, "
     "subscription notifications (an open subscription owns no stop/pending token), HTTP/2, partially read requests, "
     "the WS handshake seam (a WS connection starts in its reader loop)",
     "calls that the reader had not yet taken when the stop signal was observed are NOT run (WS: read and discarded "
@@ -272,6 +275,41 @@ def gen_insertions(rng):
     return out
 
 
+def gen_keepalive(rng):
+    """A short hyper keep-alive timeout (T<ms>) and an HTTP call whose handler is still running well after
+    stop() + that timeout: it must still be completed and answered, and `stopped` must wait for it."""
+    ms = rng.choice([100, 200, 300])
+    need = ms // 25                                   # pauses that make up one keep-alive timeout
+    long_wait = need + rng.choice([12, 14, 18])       # clearly more than the timeout (16..30 pauses)
+    ops = ["T%d" % ms]
+    kinds = rng.choice([["h"], ["h"], ["h", "h"], ["h", "w"], ["w", "h"], ["h", "h", "h"], ["h", "w", "h"]])
+    if rng.random() < 0.5:
+        ops.append("W")
+    ops += ["c" + k for k in kinds]
+    n = len(kinds)
+    ops += ["s%d" % c for c in range(n)] + ["a%d" % k for k in range(n)]
+    if "W" not in ops:
+        ops.append("W")
+    ops.append("S")
+    if rng.random() < 0.2:
+        ops.append("S")
+    order = list(range(n))
+    rng.shuffle(order)
+    early = rng.random() < 0.3                        # the first gate opens before the timeout expires
+    for j, k in enumerate(order):
+        if j == 0:
+            ops += ["p"] * (max(1, need // 2 - 1) if early else long_wait)
+        else:
+            ops += ["p"] * rng.choice([0, 1, 3])
+        ops += ["r%d" % k, "f%d" % k, "y%d" % k]
+        if j == 0 and early and n > 1:
+            ops += ["p"] * long_wait
+    ops.append("Z")
+    if rng.random() < 0.3:
+        ops += ["S", "ch", "s%d" % n]
+    return " ".join(ops)
+
+
 FACT = re.compile(r"^stops=([^;]*);stopped=([^;]*);conns=([^;]*);calls=([^;]*);to=([^;]*)(;.*)?$")
 
 
@@ -428,6 +466,15 @@ def gen_cases(ctx):
             pinged.append(with_ping(t))
     for t in pinged:
         cases.append((t, "ws-ping-enabled"))
+    # hyper's keep-alive timeout set to 100..300 ms and handlers (started before the stop) that keep running for much
+    # longer than that after the stop signal: the timeout must have no effect (the model ignores `T`)
+    P = lambda n: " ".join(["p"] * n)
+    for ms, n in ((100, 16), (200, 22), (300, 28)):
+        cases.append(("T%d ch W s0 a0 S %s r0 f0 y0 Z" % (ms, P(n)), "keepalive-short"))
+        cases.append(("T%d cw ch W s0 s1 a0 a1 S %s r1 f1 y1 r0 f0 y0 Z" % (ms, P(n)), "keepalive-short"))
+        cases.append(("T%d ch ch W s0 s1 a0 a1 S p p r0 f0 y0 %s r1 f1 y1 Z" % (ms, P(n)), "keepalive-short"))
+    for _ in range(ctx.scale(12, 150)):
+        cases.append((gen_keepalive(rng), "keepalive-short"))
     seen, out = set(), []
     for t, tag in cases:
         if t not in seen:
